@@ -198,6 +198,119 @@ def g_fop(o):
     raise ValueError(k)
 
 
+
+# --------------------------------------------------------------------------
+# S-instantiate: job graphs built through the JobGraph API
+# --------------------------------------------------------------------------
+JOBNAMES = ["A", "B", "C", "D", "E", "F", "G_", "H"]
+
+
+def gen_inst_case(rng, quick=True):
+    n = rng.choice([1, 2, 2, 3, 3, 4, 4, 5, 6])
+    if rng.random() < 0.02:
+        n = 0
+    jobs = []
+    for k in range(n):
+        name = k if rng.random() < 0.97 else rng.randrange(n)
+        r = rng.random()
+        slo = None if r < 0.6 else ([-1, 0] if r < 0.65 else [rng.randint(0, 900), 0] if r < 0.95 else [rng.randint(0, 3), 1])
+        r = rng.random()
+        prob = ["z", 1] if r < 0.1 else ["f", [1, 0]] if r < 0.7 else ["f", [0, 0]] if r < 0.85 else ["f", [rng.randrange(1, 8), -3]]
+        nr = rng.choice([1, 1, 1, 2, 2, 3]) if rng.random() < 0.97 else 0
+        runtimes = []
+        for _ in range(nr):
+            u = 0 if rng.random() < 0.85 else 1
+            runtimes.append([rng.choice([0, 1, 10, 50, 100, 100, 250, 999]) if u == 0 else rng.randint(0, 2), u])
+        jobs.append({"name": name, "slo": slo, "cond": rng.random() < 0.15, "term": rng.random() < 0.15, "prob": prob,
+                     "runtimes": runtimes})
+    edges = []
+    dens = rng.choice([0.2, 0.4, 0.7])
+    for a in range(n):
+        for b in range(a + 1, n):
+            if rng.random() < dens:
+                edges.append([a, b])
+    rng.shuffle(edges)
+    if n >= 2 and rng.random() < 0.03:       # a duplicate edge
+        edges.append(list(rng.choice(edges)) if edges else [0, 1])
+    if n >= 2 and rng.random() < 0.02:       # a cycle
+        edges.append([n - 1, 0])
+        edges.append([0, n - 1])
+    kind = rng.choice(["fixed", "fixed", "fixed", "poisson", "gamma", "closed_loop", "periodic"])
+    pol, comp = gen_policy(rng, kind)
+    if kind in ("fixed", "poisson", "gamma", "closed_loop"):
+        pol["n"] = rng.choice([0, 1, 2, 2, 3])
+    if kind == "closed_loop":
+        pol["conc"] = rng.choice([1, 2, 3])
+    if kind == "periodic" and us(pol["period"]) != 0:
+        comp = [us(pol["start"]) + rng.randint(0, 3) * us(pol["period"]) + 1, 0]
+    r = rng.random()
+    variance = None if r < 0.3 else [rng.choice([0, 0, 10, 20, 50]), rng.choice([0, 10, 20, 33, 60, 100])] if r < 0.9 \
+        else [rng.randint(-50, 50), rng.randint(-50, 50)]
+    flags = None
+    if rng.random() < 0.6:
+        flags = {"minv": rng.choice([0, 0, 5, 10]), "maxv": rng.choice([0, 20, 20, 50]),
+                 "minb": rng.choice([0, 0, 0, 30, 500]), "maxb": rng.choice([2 ** 63 - 1, 2 ** 63 - 1, 40, 200, 5000, 10])}
+    return {"jobs": jobs, "edges": edges, "policy": pol, "variance": variance, "flags": flags, "completion": comp,
+            "names": JOBNAMES}
+
+
+def g_job(k, j):
+    slo = INVALID if j["slo"] is None else j["slo"]
+    return "(mkJob %s %s %s %s %s %s %s)" % (gz(k), gz(j["name"]), g_et(slo), core.gbool(j["cond"]), core.gbool(j["term"]),
+                                            g_num(j["prob"]), glist([g_et(r) for r in j["runtimes"]]))
+
+
+def g_iflags(f):
+    if f is None:
+        return "no_flags"
+    return "(mkIF %s %s (%s, %s))" % (gz(f["minb"]), gz(f["maxb"]), gz(f["minv"]), gz(f["maxv"]))
+
+
+def g_inst_case(c, r):
+    zd, fd = [], []
+    for d in r["draws"]:
+        if d[0] == "poisson":
+            zd = d[2]
+        else:
+            fd = d[2]
+    var = "None" if c["variance"] is None else "(Some (%s, %s))" % (gz(c["variance"][0]), gz(c["variance"][1]))
+    return "(mkIC %s %s %s %s %s %s %s %s %s)" % (
+        glist([g_job(k, j) for k, j in enumerate(c["jobs"])]),
+        glist(["(%s, %s)" % (gz(a), gz(b)) for a, b in c["edges"]]),
+        g_policy(c["policy"]), var, g_iflags(c["flags"]), g_et(c["completion"]),
+        glist([gz(x) for x in zd]), glist([g_fl(x) for x in fd]), glist([g_fl(x) for x in r["uniform"]]))
+
+
+def gen_cl_case(rng):
+    conc = rng.choice([1, 1, 2, 2, 3, 4, -1, 0])
+    n = rng.choice([1, 2, 3, 4, 5, 7, 9, 0, -1])
+    k = max(0, min(conc, n)) if n >= conc else max(0, n)
+    live = list(range(k))
+    nxt = k
+    remaining = n - k
+    notify = []
+    contract = True
+    for _ in range(rng.randint(0, 12)):
+        r = rng.random()
+        if live and r < 0.8:
+            g = live.pop(rng.randrange(len(live)))
+        elif r < 0.9:
+            g = rng.randint(0, nxt + 1)          # maybe finished already, maybe unknown
+            if g in live:
+                live.remove(g)
+            else:
+                contract = False
+        else:
+            g = nxt + rng.randint(1, 3)
+            contract = False
+        notify.append(g)
+        if g < nxt and remaining > 0:
+            live.append(nxt)
+            nxt += 1
+            remaining -= 1
+    return {"conc": conc, "n": n, "notify": notify, "start": rng.choice([0, 0, 5, 1000]), "contract": contract}
+
+
 def run(ctx):
     ctx.fingerprint(FILES)
     ctx.translate(["Time"])
@@ -263,3 +376,76 @@ def run(ctx):
                                           "what": "release times differ from the model of get_release_times"})
     except core.ModelEvalError as e:
         ctx.broken.append({"kind": "correspondence", "name": "S-release-times", "detail": str(e)[-600:]})
+
+    # ---------------- S-instantiate, S-closed-loop
+    n_inst = 700 if quick else 7000
+    n_cl = 400 if quick else 4000
+    inst_cases = [gen_inst_case(rng) for _ in range(n_inst)]
+    cl_cases = [gen_cl_case(rng) for _ in range(n_cl)]
+    impl2 = core.run_impl("release.py", {"instantiate": inst_cases, "closed_loop": cl_cases})
+    ctx.rules.append("S-instantiate: JobGraph built with add_job/add_child (1-6 jobs, random DAG edges in shuffled order, "
+                     "rare duplicate names/edges/cycles/strategy-less jobs/empty graphs), every policy, variance None or a pair "
+                     "(incl. reversed and negative), flags None or (min/max deadline, default variance); "
+                     "JobGraph.generate_task_graphs compared field by field (task names, release, deadline, probability, "
+                     "children order, freshness of ids) with the recorded numpy and uniform draws as oracle; distinct = "
+                     "distinct case; non-trivial = >= 2 jobs with an edge and >= 1 task graph, or an error")
+    nt = 0
+    shapes = {"ok_graphs": 0, "errors": 0, "with_edges": 0}
+    for c, r in zip(inst_cases, impl2["instantiate"]):
+        if r["res"][0] == 1:
+            shapes["errors"] += 1
+            nt += 1
+        else:
+            shapes["ok_graphs"] += len(r["res"][1][0])
+            if c["edges"] and r["res"][1][0]:
+                nt += 1
+                shapes["with_edges"] += 1
+    ctx.cov["distinct_nontrivial"] += nt
+    ctx.cov["input_distribution"]["instantiate"] = shapes
+    ctx.sample({"stream": "S-instantiate", "case": inst_cases[0], "impl": impl2["instantiate"][0]})
+    try:
+        cases = [(g_inst_case(c, r), r["res"], c) for c, r in zip(inst_cases, impl2["instantiate"])]
+        mism = ctx.model_stream("S-instantiate", HDR, "inst_case", "inst_observe", cases, shard=100)
+        for idx, mv in mism[:3]:
+            ctx.violation("inst%d" % idx, {"stream": "S-instantiate", "case": inst_cases[idx],
+                                            "implementation": impl2["instantiate"][idx], "model": mv,
+                                            "what": "generated task graphs differ from the model's instantiation"})
+        cases = [(g_inst_case(c, r), r["ct"], c) for c, r in zip(inst_cases, impl2["instantiate"])]
+        mism = ctx.model_stream("S-completion-time", HDR, "inst_case", "ct_observe", cases, shard=100)
+        for idx, mv in mism[:3]:
+            ctx.violation("ct%d" % idx, {"stream": "S-completion-time", "case": inst_cases[idx],
+                                          "implementation": impl2["instantiate"][idx]["ct"], "model": mv,
+                                          "what": "JobGraph.completion_time differs from the model"})
+    except core.ModelEvalError as e:
+        ctx.broken.append({"kind": "correspondence", "name": "S-instantiate", "detail": str(e)[-600:]})
+
+    ctx.rules.append("S-closed-loop: Workload.notify_task_graph_completion driven with generated notification sequences "
+                     "(in-flight graphs, already finished graphs, unknown graphs) on closed-loop job graphs with "
+                     "concurrency/N in -1..9; released graph, remaining count and errors compared per call; "
+                     "non-trivial = at least one re-release")
+    nt = 0
+    for c, r in zip(cl_cases, impl2["closed_loop"]):
+        if any(s[0] == 0 and s[1] for s in r["steps"]):
+            nt += 1
+    ctx.cov["distinct_nontrivial"] += nt
+    try:
+        cases = []
+        keep = []
+        for c, r in zip(cl_cases, impl2["closed_loop"]):
+            if r["init"][0] == 1:
+                continue                  # constructor refused (conc == 0 or n == 0): nothing to drive
+            keep.append((c, r))
+            exp = [[s[0], ([s[1][0]] if s[1] else []), s[2]] if s[0] == 0 else [1, s[1]] for s in r["steps"]]
+            cases.append(("(%s, %s, %s)" % (gz(c["conc"]), gz(c["n"]), glist([gz(g) for g in c["notify"]])), exp, c))
+        mism = ctx.model_stream("S-closed-loop", HDR, "Z * Z * list Z", "cl_observe", cases)
+        for idx, mv in mism[:3]:
+            ctx.violation("cl%d" % idx, {"stream": "S-closed-loop", "case": keep[idx][0], "implementation": keep[idx][1],
+                                          "model": mv, "what": "closed-loop re-release differs from the bookkeeping machine"})
+        for c, r in keep:
+            bad = [s for s in r["steps"] if s[0] == 0 and (len(s[1]) > 1 or s[3] != 1)]
+            if bad:
+                ctx.violation("cltime", {"stream": "S-closed-loop", "case": c, "implementation": r,
+                                         "what": "a re-released graph does not start at completion + 1us at its sources"})
+                break
+    except core.ModelEvalError as e:
+        ctx.broken.append({"kind": "correspondence", "name": "S-closed-loop", "detail": str(e)[-600:]})
